@@ -79,6 +79,9 @@ DecCanMove == /\ status = "run"
                  \/ dec # None /\ dec.i > Len(dec.bs)
                  \/ dec # None /\ dec.i <= Len(dec.bs) /\
                       (Len(warmQ) < WarmCap \/ dec.bs[dec.i].kind \in {"struct", "body"} \/ dec.bs[dec.i].num # dec.start + dec.i - 1)
+\* the throttle token (DecThrottle) needs more than 204 queued blocks: it cannot occur in a "free" case (<= 40 blocks) and
+\* does not change any outcome, so the trace specification leaves it out
+FreeSilent == DecTake \/ DecBlock \/ DecDone \/ Handle \/ Finish
 EagerSilent == \/ HandleOK /\ Handle
                \/ ~HandleOK /\ (DecTake \/ DecBlock \/ DecDone)
                \/ Finish
@@ -93,7 +96,7 @@ TFetch ==
 
 TBSilent ==
   /\ l <= Len(Trace)
-  /\ IF mode = "eager" THEN EagerSilent ELSE BSilent
+  /\ IF mode = "eager" THEN EagerSilent ELSE FreeSilent
   /\ UNCHANGED <<l, varsA, varsC, scen, mode>>
 
 TBEnd ==
@@ -148,7 +151,9 @@ TraceAccepted == Accepted(Len(Trace))
 
 \* design invariants evaluated on the observed executions
 TInvA == AncestorCorrect /\ ProbesInRange /\ ProbesBounded /\ FindWindow
-TInvB == NoInvalidStored /\ ParentClosed /\ FaultReported /\ DroppedIsError /\ SequenceGuards
+\* ParentClosed is quadratic in the store: on long chains it is evaluated when the download has ended only
+TInvB == /\ NoInvalidStored /\ FaultReported /\ DroppedIsError /\ SequenceGuards
+         /\ (Cardinality(store) <= 50 \/ status # "run") => ParentClosed
          /\ (status # "idle" => BestIsStoredMax)
 TInvC == StoreNeverChanges /\ ClosedIffRejected
 ====
